@@ -1,4 +1,6 @@
+mod c01;
 mod c02;
+mod syncmsg;
 mod c05;
 mod storeops;
 mod storeprops;
@@ -65,6 +67,7 @@ fn main() {
     let args: Vec<String> = std::env::args().collect();
     let prop = args.get(1).cloned().unwrap_or_default();
     match prop.as_str() {
+        "C01" => run(c01::C01::new(), &args, 1500, 50000),
         "C02" => run(c02::C02::new(listed_findings("C02")), &args, 3000, 60000),
         "C05" => run(c05::C05::new(), &args, 2500, 40000),
         "C13" => run(storeprops::StoreProp::new("C13"), &args, 2500, 40000),
